@@ -1,7 +1,7 @@
 """C09 — a full queue never blocks: displace-oldest insertion, loss counter."""
 from mq.util import *
 from mq.prov import Prov
-from rules.c01 import append_chain, is_insert, BG, BGMOD
+from rules.c01 import append_chain, is_insert, BG, BGMOD, in_bg
 
 EXPL = ("R09.1 call-graph reachability: from the append entry points (BackgroundQueue::append, BoxEntrySink::append_any, the "
         "blanket EntrySink-for-AnyEntrySink forwarder; the global try_append is excluded: with test-util it consults a test-sink registry under a mutex by design) no workspace path reaches a blocking primitive (Mutex::lock, Condvar::wait*, sleep, park*, recv*, join, "
@@ -48,7 +48,7 @@ def run(ctx):
     entries = []
     for b in F.all_bodies(WS_LIBS):
         tr = ((b.impl or {}).get("trait") or "")
-        if b.name == "append" and tr.endswith("::EntrySink") and b.path.startswith("<" + BGMOD):
+        if b.name == "append" and tr.endswith("::EntrySink") and (b.path.startswith("<") and in_bg(F, b)):
             entries.append(b)
         if b.name == "append_any" and tr.endswith("::AnyEntrySink") and "BoxEntrySink" in b.path:
             entries.append(b)
@@ -62,7 +62,7 @@ def run(ctx):
     # R09.2
     n_ins = 0
     for b in entries:
-        if not b.path.startswith("<" + BGMOD):
+        if not (b.path.startswith("<") and in_bg(F, b)):
             continue
         ins = append_chain(ctx, F, "R09.2", b, 2)
         for ib, cs, ai in ins:
@@ -117,7 +117,7 @@ def run(ctx):
     # ------------------------------------------------------------------ R09.4 the loss is counted for this queue: own name in, nothing remembered in the bridge
     n_name = 0
     for b in F.all_bodies(BG):
-        if not b.path.startswith(BGMOD):
+        if not in_bg(F, b):
             continue
         pr = None
         for c in b.calls():
